@@ -1,0 +1,104 @@
+//go:build verif
+
+// Contracts for package linkedlistqueue (comment-only; read by /verif/engine, never compiled into the package).
+
+package linkedlistqueue
+
+//@ pred Inv(s) := s != nil && s.list != nil && singlylinkedlist.Inv(s.list)
+//@ -- abstract view: the element that would be removed next comes first
+//@ pred Seq(s) := singlylinkedlist.Seq(s.list)
+
+//@ func New
+//@   modifies nothing
+//@   ensures [C05 C15 C17] fresh(result) && Inv(result) && len(Seq(result)) == 0 && fresh(result.list)
+
+//@ func Queue.Enqueue
+//@   requires Inv(queue)
+//@   modifies queue.list.first, queue.list.last, queue.list.size, queue.list.nodes
+//@   modifies each e like queue.list.first where e.owner == queue.list : e.next, e.idx
+//@   ensures [C05 C17] Inv(queue) && queue.list == old(queue.list) && Seq(queue) == old(Seq(queue)) ++ [value]
+
+//@ func Queue.Dequeue
+//@   requires Inv(queue)
+//@   modifies queue.list.first, queue.list.last, queue.list.size, queue.list.nodes
+//@   modifies each e like queue.list.first where e.owner == queue.list : e.next, e.idx
+//@   ensures [C05 C17] Inv(queue) && queue.list == old(queue.list)
+//@   ensures [C05] empty: old(len(Seq(queue))) == 0 ==> !ok && value == zero(value) && len(Seq(queue)) == 0
+//@   ensures [C05] nonempty: old(len(Seq(queue))) > 0 ==> ok && value == old(Seq(queue))[0] && Seq(queue) == old(Seq(queue))[1:]
+
+//@ func Queue.Peek
+//@   requires Inv(queue)
+//@   modifies nothing
+//@   ensures [C05 C17 C18] len(Seq(queue)) == 0 ==> !ok && value == zero(value)
+//@   ensures [C05 C17 C18] len(Seq(queue)) > 0 ==> ok && value == Seq(queue)[0]
+
+//@ func Queue.Empty
+//@   requires Inv(queue)
+//@   modifies nothing
+//@   ensures [C15 C17 C18] result == (len(Seq(queue)) == 0)
+
+//@ func Queue.Size
+//@   requires Inv(queue)
+//@   modifies nothing
+//@   ensures [C05 C15 C17 C18] result == len(Seq(queue)) && result >= 0
+
+//@ func Queue.Clear
+//@   requires Inv(queue)
+//@   modifies queue.list.first, queue.list.last, queue.list.size
+//@   ensures [C05 C15 C17] Inv(queue) && queue.list == old(queue.list) && len(Seq(queue)) == 0
+
+//@ func Queue.Values
+//@   requires Inv(queue)
+//@   modifies nothing
+//@   ensures [C05 C15 C16 C17 C18] fresh(arr(result)) && seq(result) == Seq(queue)
+
+//@ func Queue.withinRange
+//@   inline
+
+// ---- iterator: a cursor over positions -1..n of Seq(queue) (C08) ----
+
+//@ pred ItInv(it) := it != nil && it.queue != nil && Inv(it.queue) && 0 - 1 <= it.index && it.index <= len(Seq(it.queue))
+
+//@ func Queue.Iterator
+//@   requires Inv(queue)
+//@   modifies nothing
+//@   ensures [C08 C17 C18] fresh(result) && ItInv(result) && result.queue == queue && result.index == 0 - 1
+
+//@ func Iterator.Next
+//@   requires ItInv(iterator)
+//@   modifies iterator.index
+//@   ensures [C08 C17] ItInv(iterator) && iterator.index == min(old(iterator.index) + 1, len(Seq(iterator.queue)))
+//@   ensures [C08] result == (0 <= iterator.index && iterator.index < len(Seq(iterator.queue)))
+
+//@ func Iterator.Value
+//@   requires ItInv(iterator) && 0 <= iterator.index && iterator.index < len(Seq(iterator.queue))
+//@   modifies nothing
+//@   ensures [C08 C17 C18] result == Seq(iterator.queue)[iterator.index]
+
+//@ func Iterator.Index
+//@   requires ItInv(iterator)
+//@   modifies nothing
+//@   ensures [C08 C17 C18] result == iterator.index
+
+//@ func Iterator.Begin
+//@   requires ItInv(iterator)
+//@   modifies iterator.index
+//@   ensures [C08 C17] ItInv(iterator) && iterator.index == 0 - 1
+
+//@ func Iterator.First
+//@   requires ItInv(iterator)
+//@   modifies iterator.index
+//@   ensures [C08 C17] ItInv(iterator) && iterator.index == 0 && result == (len(Seq(iterator.queue)) > 0)
+
+//@ func Iterator.NextTo
+//@   requires ItInv(iterator) && f != nil
+//@   modifies iterator.index
+//@   ensures [C08 C17] ItInv(iterator)
+//@   ensures [C08] found: result ==> old(iterator.index) < iterator.index && iterator.index < len(Seq(iterator.queue)) && f(iterator.index, Seq(iterator.queue)[iterator.index])
+//@     && (forall j :: old(iterator.index) < j && j < iterator.index ==> !f(j, Seq(iterator.queue)[j]))
+//@   ensures [C08] notfound: !result ==> iterator.index == len(Seq(iterator.queue)) && (forall j :: old(iterator.index) < j && j < len(Seq(iterator.queue)) ==> !f(j, Seq(iterator.queue)[j]))
+//@   loop 1:
+//@     invariant ItInv(iterator) && old(iterator.index) <= iterator.index
+//@     invariant forall j :: old(iterator.index) < j && j <= iterator.index && j < len(Seq(iterator.queue)) ==> !f(j, Seq(iterator.queue)[j])
+//@     decreases len(Seq(iterator.queue)) - iterator.index
+
